@@ -17,6 +17,8 @@ def run(chk, tier):
         chk.guarded(r, P, tier)
     from props import c14
     chk.guarded(c14.r_offset_used, P, tier)
+    chk.guarded(c14.r_verify_halves, P, tier)
+    chk.guarded(c14.r_resolve_year_map, P, tier)
     chk.guarded(c12.r_numeric_writers, P, tier)
     chk.assume("the round trip itself (for any value), white-space and letter-case perturbations are NOT decided; only that reader and writer agree item by item on width, sign and field")
     return {
